@@ -452,6 +452,8 @@ pub fn run(t: &[&str]) -> String {
             value_op(name, mask, a, t[4], !0u64)
         }
         "c07.eval" => eval_case(&t[1..], false),
+        // gimli's trace read canonically (generic values modulo the address size) vs the extracted spec machine
+        "c07.specrun" => eval_case(&t[1..], true),
         "c07.spec" => {
             // t[1] = v|e, t[2] = class tag (k = known finding class), rest as c07.value / c07.eval
             if t[1] == "e" {
